@@ -745,7 +745,7 @@ def check(prop, tier, cap, only=None, procs=None, list_only=False, t0=None):
     for r in results:
         r["known_hits"] = [h for h in r.get("known_hits", []) if h in confirmed]
     return common.finish(
-        prop, tier, "proof", results, t0,
+        prop, tier, "other", results, t0,
         functions=["claripy.backends.backend_vsa.strided_interval.StridedInterval: " + (
             "add sub mul udiv sdiv __mod__ neg bitwise_not/and/or/xor lshift rshift_logical rshift_arithmetic zero_extend sign_extend "
             "extract concat SLT SLE SGT SGE ULT ULE UGT UGE eq (+ _ssplit/_nsplit/_psplit, _wrapped_*, normalize)" if prop == "C21" else
@@ -757,6 +757,8 @@ def check(prop, tier, cap, only=None, procs=None, list_only=False, t0=None):
         assumptions=["operand intervals are well-formed (lb == ub, or stride != 0 and (ub - lb) mod stride == 0): asserted before the code runs",
                      "division/remainder: the divisor member is non-zero (documented exemption)",
                      "gamma(s[lb,ub]) = { z : (z-lb) <=u (ub-lb) and (s == 0 ? z == lb : (z-lb) mod s == 0) }",
+                     "PYTHONHASHSEED=0 (set by ./check): sdiv/udiv join their per-piece results in set-iteration order of string-hashed "
+                     "intervals, so their results depend on the hash seed; the known-failing tuples of sdiv are the union over seeds 0..7",
                      "shims: " + "; ".join(SHIMS)],
         rule="one obligation = one (operation, width); stride/lower/upper of every operand and the concrete members are solver variables; "
              "per explored path Z3 proves containment for all of them; non-trivial = at least one path explored",
